@@ -231,7 +231,31 @@ func (j *judgeCtx) maybePurged(s *Sub) bool {
 	return false
 }
 
-func (j *judgeCtx) accepted(s *Sub) bool { return s.Submitted && s.AcceptKnown && s.Accepted }
+// accepted: the submission was surely accepted.  Batch items on unwrapped
+// queues report nothing individually: they are surely accepted when no
+// queue.Close had been invoked by the time AddAll returned.
+func (j *judgeCtx) accepted(s *Sub) bool {
+	if !s.Submitted {
+		return false
+	}
+	if s.AcceptKnown {
+		return s.Accepted
+	}
+	q := j.wd.qs[s.Q%len(j.wd.qs)]
+	return q.closeInv == 0 || q.closeInv > s.AddRet
+}
+
+// maybeAccepted: acceptance cannot be excluded.
+func (j *judgeCtx) maybeAccepted(s *Sub) bool {
+	if !s.Submitted {
+		return s.AddInv != 0
+	}
+	if s.AcceptKnown {
+		return s.Accepted
+	}
+	q := j.wd.qs[s.Q%len(j.wd.qs)]
+	return q.closeRet == 0 || q.closeRet > s.AddInv
+}
 
 // reexecAllowed: at-least-once delivery is legitimate for this submission
 // (acknowledging adapter with refused acks / crash).
@@ -641,7 +665,24 @@ func (j *judgeCtx) checkPause() {
 			}
 		} else {
 			exec := j.inflightAt(c.Ret)
-			lim := j.maxLimit(c.Inv, c.Ret)
+			// the limit that bounds "already dispatched" is the largest one in effect
+			// since the oldest job executing at, or starting after, the return was dispatched
+			oldest := c.Inv
+			for _, s := range wd.subs {
+				for i, e := range s.Entries {
+					inflight := e <= c.Ret && (i >= len(s.Exits) || s.Exits[i] > c.Ret)
+					if inflight || (e > c.Ret && e < end) {
+						t := s.Deq
+						if t == 0 || t > e {
+							t = s.AddInv
+						}
+						if t < oldest {
+							oldest = t
+						}
+					}
+				}
+			}
+			lim := j.maxLimit(oldest, c.Ret)
 			started := 0
 			for _, f := range j.r.fns {
 				if f.Enter && f.W == 0 && f.Seq > c.Ret && f.Seq < end {
@@ -770,12 +811,17 @@ func (j *judgeCtx) checkStatus() {
 			j.add("C16.d", c.Ret, "job %d reports status %q, which is none of the documented ones", s.N, c.Str)
 			continue
 		}
-		if last[s.N] > rk {
-			j.add("C16.a", c.Ret, "job %d status went backwards: %q (rank %d) observed at %d, then %q at %d", s.N, rankName(last[s.N]), last[s.N], lastSeq[s.N], c.Str, c.Ret)
+		// a sample is an interval [Inv,Ret] (the read happens somewhere inside):
+		// only samples that precede this one in real time constrain it
+		for _, o := range j.r.calls {
+			if o.K == opStatus && o.Sub == c.Sub && o.Ret != 0 && o.Ret < c.Inv {
+				if ork, ok := statusRank[o.Str]; ok && ork > rk {
+					j.add("C16.a", c.Ret, "job %d status went backwards: %q observed in [%d,%d], then %q in [%d,%d]", s.N, o.Str, o.Inv, o.Ret, c.Str, c.Inv, c.Ret)
+					break
+				}
+			}
 		}
-		if rk > last[s.N] {
-			last[s.N], lastSeq[s.N] = rk, c.Ret
-		}
+		_, _ = last, lastSeq
 		// sampled while the worker function runs
 		for i, e := range s.Entries {
 			if e < c.Inv && (i >= len(s.Exits) || s.Exits[i] > c.Ret) && c.Str != "Processing" {
@@ -934,11 +980,16 @@ func (j *judgeCtx) oldestInflight(seq uint64) uint64 {
 func (j *judgeCtx) pendingBounds(q int, seq uint64) (lo, hi int, exact bool) {
 	exact = true
 	for _, s := range j.wd.subs {
-		if !j.accepted(s) || s.AddRet == 0 || s.AddRet > seq {
-			continue
-		}
 		qq := j.wd.qs[s.Q%len(j.wd.qs)]
 		if q >= 0 && qq.idx != q {
+			continue
+		}
+		if !j.accepted(s) || s.AddRet == 0 || s.AddRet > seq {
+			// in flight or of unknown acceptance: may or may not be inside
+			if j.maybeAccepted(s) && s.AddInv != 0 && s.AddInv <= seq && !(len(s.Entries) > 0 && s.Entries[0] <= seq) && !(s.Deq != 0 && s.Deq <= seq) && !(s.Purged != 0 && s.Purged <= seq) {
+				hi++
+				exact = false
+			}
 			continue
 		}
 		if s.Purged != 0 && s.Purged <= seq {
